@@ -65,6 +65,7 @@ class LenKind(AbsInt):
             if v is TOP or v is BOT:
                 return TOP
             if isinstance(v, tuple) and v[0] == 'len':
+                v = v[:2]
                 if sym is None:
                     sym = v[1]
                 elif sym != v[1]:
@@ -76,6 +77,8 @@ class LenKind(AbsInt):
         return ('len', sym) if sym is not None else SCALAR
 
     def binop(self, node, left, right, fr):
+        if isinstance(left, tuple) and isinstance(right, tuple) and left[0] == 'n' and right[0] == 'n':
+            return ('n', f'({left[1]} {type(node.op).__name__} {right[1]})')
         return self._elementwise([left, right])
 
     def unaryop(self, node, operand, fr):
@@ -85,10 +88,14 @@ class LenKind(AbsInt):
         return self._elementwise([self.value(node.left, fr)] + [self.value(c, fr) for c in node.comparators])
 
     def subscript(self, node, base, fr):
+        # selecting a column of a DataFrame by label keeps the number of rows
+        if isinstance(base, tuple) and len(base) == 3 and base[0] == 'len' and base[2] == 'frame' \
+                and isinstance(node.slice, (ast.Name, ast.Constant)) and not isinstance(getattr(node.slice, 'value', ''), int):
+            return ('len', base[1])
         return TOP
 
     def attribute(self, node, base, fr):
-        if node.attr in ('values', 'T') and node.attr == 'values':
+        if node.attr == 'values':
             return base
         return TOP
 
@@ -138,8 +145,11 @@ class LenKind(AbsInt):
             if isinstance(v, Tup) and v.kind == 'dict':
                 if not any(isinstance(e, tuple) and e[0] == 'len' for e in v.elems):
                     return TOP
-                return self._elementwise(v.elems)
-            if isinstance(v, tuple) and v[0] in ('len', 'mismatch'):
+                r = self._elementwise(v.elems)
+                return ('len', r[1], 'frame') if isinstance(r, tuple) and r[0] == 'len' else r
+            if isinstance(v, tuple) and v[0] == 'len':
+                return ('len', v[1], 'frame')
+            if isinstance(v, tuple) and v[0] == 'mismatch':
                 return v
             return TOP
         if name == 'range':
@@ -152,6 +162,7 @@ class LenKind(AbsInt):
                 v = self.value(node.args[0], fr)
                 if isinstance(v, tuple) and v[0] == 'len':
                     return ('n', v[1])
+                return ('n', 'len(' + ast.unparse(node.args[0]) + ')')
             return TOP
         return TOP
 
@@ -165,8 +176,9 @@ class LenKind(AbsInt):
 
     def project_call_override(self, g, node, fr):
         # model methods that are elementwise in their (first) argument
-        if g.cls is not None and g.name in ('percent_point', 'ppf', 'cdf', 'cumulative_distribution', 'pdf',
-                                             'probability_density') and node.args:
+        gname = g.name[len('_constant_'):] if g.name.startswith('_constant_') else g.name
+        if g.cls is not None and gname in ('percent_point', 'ppf', 'cdf', 'cumulative_distribution', 'pdf',
+                                            'probability_density') and node.args:
             # univariate: one argument; bivariate percent_point(y, V): both
             return self._elementwise([self.value(a, fr) for a in node.args])
         return None
@@ -217,3 +229,727 @@ def length_of_return(ctx, fn, concrete=None, params=None):
     lk = LenKind(ctx)
     fr = Frame(fn, params or {}, concrete)
     return lk.returns(fr), lk
+
+
+# ========================================================================= E5a: space kinds
+# 'X' data space, 'P' probability in [0,1], 'P0' probability strictly inside (0,1), 'Z' normal score,
+# 'D' density, 'logD', 'dP' difference of probabilities, 'TAU', 'PVAL', 'KS', 'THETA', 'CORR', 'COV',
+# 'N' count, ('num', v) numeric literal, 'EPS' / '1-EPS' the clipping constants, 'ZERO' vector of zeros
+UNI_SIG = {  # univariate model methods: argument kind -> result kind
+    'cdf': ('X', 'P'), 'cumulative_distribution': ('X', 'P'), 'percent_point': ('P', 'X'), 'ppf': ('P', 'X'),
+    'pdf': ('X', 'D'), 'probability_density': ('X', 'D'), 'log_probability_density': ('X', 'logD'),
+    'sample': ('N', 'X'),
+}
+BIV_SIG = {
+    'cdf': ('P', 'P'), 'cumulative_distribution': ('P', 'P'), 'pdf': ('P', 'D'), 'probability_density': ('P', 'D'),
+    'partial_derivative': ('P', 'P'), 'partial_derivative_scalar': ('P', 'P'), 'percent_point': ('P', 'P'),
+    'ppf': ('P', 'P'), 'sample': ('N', 'P'), 'log_probability_density': ('P', 'logD'),
+}
+SCIPY_DIST_SIG = {'cdf': ('X', 'P'), 'pdf': ('X', 'D'), 'logpdf': ('X', 'logD'), 'ppf': ('P', 'X'), 'rvs': ('N', 'X'),
+                  'sf': ('X', 'P'), 'logcdf': ('X', 'logP')}
+PRESERVING_METHODS = {'to_numpy', 'copy', 'astype', 'reshape', 'ravel', 'flatten', 'tolist', 'squeeze', 'to_frame',
+                      'transpose', 'item', 'reset_index'}
+PRESERVING_FUNCS = {'numpy.array', 'numpy.asarray', 'numpy.column_stack', 'numpy.stack', 'numpy.vstack', 'numpy.hstack',
+                    'numpy.concatenate', 'pandas.DataFrame', 'pandas.Series', 'numpy.ravel', 'numpy.squeeze',
+                    'numpy.atleast_1d', 'numpy.atleast_2d', 'numpy.copy', 'numpy.sort', 'numpy.transpose'}
+
+
+def is_prob(k):
+    return k in ('P', 'P0')
+
+
+class SpaceKind(AbsInt):
+    """Kinds of numeric values.  Signature violations are collected in self.mismatches."""
+
+    def __init__(self, ctx, hierarchy=None):
+        super().__init__(ctx)
+        self.mismatches = []  # (node, fn, message)
+        self.hierarchy = hierarchy  # 'uni' | 'biv' hint for unresolved receivers
+        self.self_kinds = {}  # attribute -> kind
+        self.param_kinds = {}  # (function qualname, param) -> kind
+
+    # ------------------------------------------------------------------ basics
+    def const(self, node, fr):
+        v = getattr(node, 'value', None)
+        if isinstance(v, bool) or v is None or isinstance(v, str):
+            return TOP
+        if isinstance(v, (int, float)):
+            return ('num', v)
+        return TOP
+
+    def param(self, name, fr):
+        if name in fr.params:
+            return fr.params[name]
+        return self.param_kinds.get((fr.fn.qualname, name), TOP)
+
+    def global_name(self, dotted, node, fr):
+        if dotted == 'copulas.utils.EPSILON':
+            return 'EPS'
+        c = self.prog.constant(dotted)
+        if c is not None and isinstance(c, ast.Constant):
+            return self.const(c, fr)
+        return TOP
+
+    def self_attr(self, attr, node, fr):
+        return self.self_kinds.get(attr, TOP)
+
+    def join_distinct(self, a, b):
+        if is_prob(a) and is_prob(b):
+            return 'P'
+        if isinstance(a, tuple) and isinstance(b, tuple) and a[0] == b[0] == 'num':
+            return ('num', None)
+        return TOP
+
+    def binop(self, node, left, right, fr):
+        op = node.op
+        if isinstance(op, ast.Sub):
+            if isinstance(left, tuple) and left == ('num', 1) and right == 'EPS':
+                return '1-EPS'
+            if is_prob(left) and is_prob(right):
+                return 'dP'
+            if isinstance(left, tuple) and left[0] == 'num' and left[1] in (1, 1.0) and is_prob(right):
+                return right  # 1 - p is a probability
+        if isinstance(op, (ast.Mult, ast.Div, ast.Add, ast.Sub)):
+            if isinstance(left, tuple) and left[0] == 'num' and isinstance(right, tuple) and right[0] == 'num':
+                return ('num', None)
+        return TOP
+
+    def unaryop(self, node, operand, fr):
+        if isinstance(operand, tuple) and operand[0] == 'num' and isinstance(node.op, ast.USub) \
+                and isinstance(operand[1], (int, float)):
+            return ('num', -operand[1])
+        return TOP
+
+    def subscript(self, node, base, fr):
+        if isinstance(base, Tup):
+            from .model import const_value
+            i = const_value(node.slice)
+            if isinstance(i, int) and -len(base.elems) <= i < len(base.elems):
+                return base.elems[i]
+            return TOP
+        return base if isinstance(base, str) else TOP
+
+    def attribute(self, node, base, fr):
+        if node.attr in ('values', 'T', 'real'):
+            return base
+        return TOP
+
+    def iter_elem(self, val, node, fr):
+        if isinstance(val, Tup):
+            if val.kind == 'zip':
+                return Tup([self.iter_elem(e, node, fr) for e in val.elems])
+            if val.kind == 'enumerate':
+                return Tup(['N', self.iter_elem(val.elems[0], node, fr)])
+            if val.kind == 'items':
+                return Tup([TOP, self.iter_elem(val.elems[0], node, fr)])
+            out = BOT
+            for e in val.elems:
+                out = self.join(out, e)
+            return out
+        return val if isinstance(val, str) else TOP
+
+    def comprehension(self, node, fr):
+        if isinstance(node, (ast.ListComp, ast.GeneratorExp)):
+            return self.value(node.elt, fr)
+        return TOP
+
+    def sequence(self, node, vals, fr):
+        return Tup(vals, 'list' if isinstance(node, ast.List) else 'tuple')
+
+    def _flat(self, v):
+        """Kind of the elements of a (possibly nested) sequence literal."""
+        if isinstance(v, Tup):
+            out = BOT
+            for e in v.elems:
+                out = self.join(out, self._flat(e))
+            return out
+        return v
+
+    def name(self, node, fr):
+        v = super().name(node, fr)
+        acc = self._appended(node.id, fr)
+        if acc is not None:
+            return acc
+        return v
+
+    def _appended(self, nm, fr):
+        binds = fr.bindings.get(nm, [])
+        if not binds or not all(b.kind == 'assign' and isinstance(b.value, ast.List) and not b.value.elts for b in binds):
+            return None
+        from .model import walk_no_nested
+        out = BOT
+        for n in walk_no_nested(fr.fn.node):
+            if isinstance(n, ast.Call) and isinstance(n.func, ast.Attribute) and n.func.attr == 'append' \
+                    and isinstance(n.func.value, ast.Name) and n.func.value.id == nm and n.args:
+                out = self.join(out, self.value(n.args[0], fr))
+        return TOP if out is BOT else out
+
+    # ------------------------------------------------------------------- calls
+    def _want(self, node, fr, got, want, what):
+        if got is TOP or got is BOT:
+            return
+        ok = (got == want) or (want == 'P' and is_prob(got)) or (want == 'X' and got == 'X') \
+            or (want == 'N' and (got == 'N' or (isinstance(got, tuple) and got[0] == 'num')))
+        if not ok and isinstance(got, str):
+            self.mismatches.append((node, fr.fn, f'{what} expects a value of kind {want} but receives kind {got}'))
+
+    def external_call(self, name, node, fr):
+        if name is None:
+            return TOP
+        args = node.args
+        leaf = name.split('.')[-1]
+        if name in ('scipy.stats.norm.ppf', 'scipy.special.ndtri'):
+            a = self._flat(self.value(args[0], fr)) if args else TOP
+            if a == 'P':
+                self.mismatches.append((node, fr.fn, 'norm.ppf receives a probability that may be exactly 0 or 1 '
+                                        '(not clipped away from the ends): +-inf normal scores'))
+            else:
+                self._want(node, fr, a, 'P0', 'norm.ppf')
+            return 'Z' if a is not TOP else 'Z'
+        if name in ('scipy.stats.norm.cdf', 'scipy.special.ndtr'):
+            a = self._flat(self.value(args[0], fr)) if args else TOP
+            self._want(node, fr, a, 'Z', leaf)
+            return 'P'
+        if name in ('scipy.stats.norm.pdf',):
+            return 'D'
+        if name.startswith('scipy.stats.multivariate_normal.'):
+            a = self._flat(self.value(args[0], fr)) if args else TOP
+            self._want(node, fr, a, 'Z', f'multivariate_normal.{leaf}')
+            cov = kwarg(node, 'cov', 2)
+            if cov is not None:
+                c = self.value(cov, fr)
+                if isinstance(c, str) and c not in ('CORR', 'COV'):
+                    self.mismatches.append((node, fr.fn, f'multivariate_normal.{leaf} cov= has kind {c}, not the fitted correlation'))
+                if c is TOP:
+                    self.mismatches.append((node, fr.fn, f'?multivariate_normal.{leaf} cov= is not derivable'))
+            else:
+                self.mismatches.append((node, fr.fn, f'multivariate_normal.{leaf} without cov=: identity covariance instead of the fitted correlation'))
+            mean = kwarg(node, 'mean', 1)
+            if mean is not None and self.value(mean, fr) not in ('ZERO', ('num', 0)):
+                self.mismatches.append((node, fr.fn, f'multivariate_normal.{leaf} with a non-zero mean'))
+            return {'pdf': 'D', 'cdf': 'P', 'logpdf': 'logD'}.get(leaf, TOP)
+        if name == 'numpy.random.multivariate_normal':
+            cov = kwarg(node, 'cov', 1)
+            c = self.value(cov, fr) if cov is not None else TOP
+            if isinstance(c, str) and c not in ('CORR', 'COV'):
+                self.mismatches.append((node, fr.fn, f'multivariate normal draw with covariance of kind {c}'))
+            return 'Z'
+        if name == 'numpy.random.uniform':
+            lo = self.value(kwarg(node, 'low', 0), fr) if kwarg(node, 'low', 0) is not None else ('num', 0)
+            hi = self.value(kwarg(node, 'high', 1), fr) if kwarg(node, 'high', 1) is not None else ('num', 1)
+            if lo in (('num', 0), ('num', 0.0)) and hi in (('num', 1), ('num', 1.0)):
+                return 'P'
+            return ('uniform', lo, hi)
+        if name in ('numpy.random.random', 'numpy.random.rand', 'numpy.random.random_sample'):
+            return 'P'
+        if name == 'scipy.stats.kendalltau':
+            return Tup(['TAU', 'PVAL'])
+        if name == 'scipy.stats.kstest':
+            return Tup(['KS', 'PVAL'])
+        if name == 'numpy.log':
+            a = self._flat(self.value(args[0], fr)) if args else TOP
+            return 'logD' if a == 'D' else TOP
+        if name in ('numpy.identity', 'numpy.eye'):
+            return 'IDENT'
+        if name == 'numpy.ones':
+            return 'ONES'
+        if name == 'numpy.zeros':
+            return 'ZERO'
+        if name == 'numpy.full' and len(args) >= 2:
+            return self.value(args[1], fr)
+        if name == 'numpy.clip' and len(args) >= 3:
+            return self._clip(self._flat(self.value(args[0], fr)), self.value(args[1], fr), self.value(args[2], fr))
+        if name in ('min', 'max', 'numpy.minimum', 'numpy.maximum') and len(args) == 2:
+            a, b = self.value(args[0], fr), self.value(args[1], fr)
+            ks = [k for k in (a, b) if isinstance(k, str) and k not in ('EPS', '1-EPS')]
+            if len(ks) == 1 and is_prob(ks[0]) or (len(ks) == 1 and ks[0] == 'Pclip'):
+                other = b if a is ks[0] else a
+                return ('bounded', ks[0], leaf, other)
+            if any(isinstance(k, tuple) and k and k[0] == 'bounded' for k in (a, b)):
+                inner = a if isinstance(a, tuple) and a and a[0] == 'bounded' else b
+                other = b if inner is a else a
+                # min(max(p, lo), hi): a probability strictly inside (0,1) when 0 < lo and hi < 1
+                lo_hi = {inner[2]: inner[3], leaf: other}
+                lo, hi = lo_hi.get('max', lo_hi.get('maximum')), lo_hi.get('min', lo_hi.get('minimum'))
+                if self._pos(lo) and self._below_one(hi):
+                    return 'P0'
+                return 'P'
+            return TOP
+        if name in PRESERVING_FUNCS and args:
+            return self._flat(self.value(args[0], fr))
+        if name.startswith('scipy.stats.') and leaf in SCIPY_DIST_SIG:
+            want, res = SCIPY_DIST_SIG[leaf]
+            if args:
+                self._want(node, fr, self._flat(self.value(args[0], fr)), want, f'{name}')
+            return res
+        return TOP
+
+    @staticmethod
+    def _pos(k):
+        return k == 'EPS' or (isinstance(k, tuple) and k[0] == 'num' and isinstance(k[1], (int, float)) and 0 < k[1] < 1)
+
+    @staticmethod
+    def _below_one(k):
+        return k == '1-EPS' or (isinstance(k, tuple) and k[0] == 'num' and isinstance(k[1], (int, float)) and 0 < k[1] < 1)
+
+    def _clip(self, base, lo, hi):
+        if is_prob(base):
+            return 'P0' if (self._pos(lo) and self._below_one(hi)) else 'P'
+        return base
+
+    def model_method(self, meth, node, fr, hierarchy):
+        sig = (UNI_SIG if hierarchy == 'uni' else BIV_SIG).get(meth)
+        if sig is None:
+            return None
+        want, res = sig
+        for a in node.args[:(2 if hierarchy == 'biv' and meth in ('percent_point', 'ppf', 'partial_derivative_scalar') else 1)]:
+            self._want(node, fr, self._flat(self.value(a, fr)), want, f'{"univariate" if hierarchy == "uni" else "bivariate"} {meth}()')
+        return res
+
+    def receiver_hierarchy(self, node, fr):
+        f = node.func
+        if not isinstance(f, ast.Attribute):
+            return None
+        types = self.cg.expr_classes(fr.fn, f.value)
+        if types:
+            names = {t.qualname for t in types if not isinstance(t, str)}
+            if any('.univariate.' in n for n in names):
+                return 'uni'
+            if any('.bivariate.' in n for n in names):
+                return 'biv'
+            if any(isinstance(t, str) and 'scipy.stats' in t for t in types):
+                return 'scipy'
+        return None
+
+    def call(self, node, fr):
+        f = node.func
+        if isinstance(f, ast.Attribute):
+            meth = f.attr
+            if meth == 'clip' and len(node.args) >= 2:
+                return self._clip(self._flat(self.value(f.value, fr)), self.value(node.args[0], fr), self.value(node.args[1], fr))
+            if meth in PRESERVING_METHODS:
+                base = self.value(f.value, fr)
+                if base is not TOP:
+                    return self._flat(base) if meth in ('to_numpy', 'ravel', 'flatten', 'tolist') else base
+            h = self.receiver_hierarchy(node, fr)
+            if h == 'scipy' and meth in SCIPY_DIST_SIG:
+                want, res = SCIPY_DIST_SIG[meth]
+                if node.args:
+                    self._want(node, fr, self._flat(self.value(node.args[0], fr)), want, f'<dist>.{meth}')
+                return res
+            if h in ('uni', 'biv') and meth in (UNI_SIG if h == 'uni' else BIV_SIG):
+                return self.model_method(meth, node, fr, h)
+            if h is None and self.hierarchy and meth in (UNI_SIG if self.hierarchy == 'uni' else BIV_SIG):
+                nm = self.prog.resolve(fr.fn.module, f)
+                if nm is None:
+                    tg = self.cg.targets(fr.fn, node, fr.concrete)
+                    if all(t.kind != 'proj' or t.how == 'by method name' for t in tg):
+                        return self.model_method(meth, node, fr, self.hierarchy)
+        return super().call(node, fr)
+
+    def method_call(self, meth, node, recv, fr):
+        if meth == 'corr':
+            return 'CORR'
+        if meth in PRESERVING_METHODS:
+            return recv if recv is not TOP else None
+        return None
+
+
+# ==================================================================== E5c: axis-order provenance
+# ('ord', tag)            a 1-D sequence / labelled vector whose elements are ordered by `tag`
+# ('mat', rowtag, coltag) a 2-D table
+# tags: ('cols',) training order (self.columns)        ('keys', K) key order of container K
+#       ('filter', tag, K) `tag` filtered by membership in K      ('xcols', K) column order of frame K
+#       ('diff', id) result of Index.difference (sorted)          'ANY' polymorphic (zeros, scalars)
+#       'ROWS' the batch axis
+ANY = 'ANY'
+ROWS = 'ROWS'
+
+
+def tag_compat(t1, t2):
+    """True (definitely aligned), False (may be misaligned at equal length), None (unknown)."""
+    if t1 is TOP or t2 is TOP or t1 is None or t2 is None:
+        return None
+    if t1 == ANY or t2 == ANY or t1 == t2:
+        return True
+    # a training-order list filtered by membership, paired with the full training order:
+    # equal length forces the filter to be the identity (a length mismatch is a loud shape error)
+    for a, b in ((t1, t2), (t2, t1)):
+        if isinstance(a, tuple) and a[0] == 'filter' and a[1] == b:
+            return True
+    return False
+
+
+class OrderKind(AbsInt):
+    def __init__(self, ctx):
+        super().__init__(ctx)
+        self.mismatches = []  # (node, fn, msg)
+        self.undecided = []
+        self.checked = []  # (node, fn, what) pairings that were verified
+        self.sym = {}  # parameter symbol table: (fn qualname, param) -> K symbol
+
+    # ---------------------------------------------------------------- helpers
+    def K(self, fr, name):
+        """Symbol for the container held by parameter `name` (propagated through calls)."""
+        v = fr.params.get(name)
+        if isinstance(v, tuple) and v and v[0] == 'container':
+            return v[1]
+        return f'{fr.fn.name}.{name}'
+
+    def pair(self, node, fr, t1, t2, what):
+        c = tag_compat(t1, t2)
+        if c is True:
+            self.checked.append((node, fr.fn, f'{what}: {fmt_tag(t1)} ~ {fmt_tag(t2)}'))
+        elif c is False:
+            self.mismatches.append((node, fr.fn, f'{what}: positions ordered by {fmt_tag(t1)} are paired with '
+                                    f'labels/partner ordered by {fmt_tag(t2)} (same length, possibly different order)'))
+        else:
+            self.undecided.append((node, fr.fn, f'{what}: order not derivable ({fmt_tag(t1)} vs {fmt_tag(t2)})'))
+
+    @staticmethod
+    def otag(v):
+        if isinstance(v, tuple) and v and v[0] == 'ord':
+            return v[1]
+        if isinstance(v, tuple) and v and v[0] == 'container':
+            return ('keys', v[1])
+        if v == ANY:
+            return ANY
+        return TOP
+
+    # ------------------------------------------------------------------ domain
+    def const(self, node, fr):
+        return ANY
+
+    def param(self, name, fr):
+        if name in fr.params:
+            return fr.params[name]
+        return ('container', f'{fr.fn.name}.{name}')
+
+    def self_attr(self, attr, node, fr):
+        if attr in ('columns', 'univariates'):
+            return ('ord', ('cols',))
+        if attr == 'correlation':
+            return ('mat', ('cols',), ('cols',))
+        return TOP
+
+    def join_distinct(self, a, b):
+        # a labelled one-row frame made from Series K / an array relabelled with the training columns is,
+        # for membership and label-based access, still "container K"
+        for x, y in ((a, b), (b, a)):
+            if isinstance(x, tuple) and x and x[0] == 'container' and isinstance(y, tuple) and y and y[0] == 'mat' \
+                    and y[1] == ROWS and (y[2] == ('keys', x[1]) or y[2] == ('cols',) or y[2] == ANY):
+                return x
+            if isinstance(x, tuple) and x and x[0] == 'container' and isinstance(y, Tup) and len(y.elems) == 1 \
+                    and y.elems[0] == x:
+                return x  # X = [X]: a single positional row
+        return TOP
+
+    def attribute(self, node, base, fr):
+        if isinstance(base, tuple) and base:
+            if base[0] == 'container':
+                if node.attr == 'index':
+                    return ('ord', ('keys', base[1]))
+                if node.attr == 'columns':
+                    return ('ord', ('xcols', base[1]))
+                if node.attr == 'T':
+                    return ('mat', ROWS, ('keys', base[1]))  # Series.to_frame().T: one row, columns = keys
+                if node.attr == 'values':
+                    return base
+            if base[0] == 'ord' and node.attr in ('index', 'values', 'T'):
+                return base
+            if base[0] == 'mat':
+                if node.attr == 'columns':
+                    return ('ord', base[2])
+                if node.attr == 'index':
+                    return ('ord', base[1])
+                if node.attr == 'T':
+                    return ('mat', base[2], base[1])
+                if node.attr in ('values', 'loc', 'iloc'):
+                    return base
+        return TOP
+
+    def binop(self, node, left, right, fr):
+        if isinstance(node.op, ast.MatMult):
+            return self.matmul(node, left, right, fr)
+        for a, b in ((left, right), (right, left)):
+            if isinstance(a, tuple) and a and a[0] in ('mat', 'ord'):
+                if isinstance(b, tuple) and b and b[0] == a[0]:
+                    if a[0] == 'mat':
+                        self.pair(node, fr, a[1], b[1], 'elementwise operation (rows)')
+                        self.pair(node, fr, a[2], b[2], 'elementwise operation (columns)')
+                    else:
+                        self.pair(node, fr, a[1], b[1], 'elementwise operation')
+                return a
+        return ANY if left == ANY and right == ANY else TOP
+
+    def unaryop(self, node, operand, fr):
+        return operand
+
+    def matmul(self, node, a, b, fr):
+        if isinstance(a, tuple) and a and a[0] == 'mat':
+            if isinstance(b, tuple) and b and b[0] == 'mat':
+                self.pair(node, fr, a[2], b[1], 'matrix product (inner axis)')
+                return ('mat', a[1], b[2])
+            if isinstance(b, tuple) and b and b[0] == 'ord':
+                self.pair(node, fr, a[2], b[1], 'matrix-vector product')
+                return ('ord', a[1])
+            if b == ANY:
+                return ('ord', a[1])
+        return TOP
+
+    def subscript(self, node, base, fr):
+        from .model import const_value
+        if isinstance(base, tuple) and base and base[0] == 'mat':
+            sl = node.slice
+            # .loc[rows, cols]
+            if isinstance(sl, ast.Tuple) and len(sl.elts) == 2 and isinstance(node.value, ast.Attribute) \
+                    and node.value.attr == 'loc':
+                r, c = self.value(sl.elts[0], fr), self.value(sl.elts[1], fr)
+                return ('mat', self.otag(r), self.otag(c))
+            if isinstance(const_value(sl, None), int):
+                return ('ord', base[2])  # one row
+            return TOP
+        if isinstance(base, tuple) and base and base[0] == 'container':
+            return ANY  # label-based access: order-agnostic
+        if isinstance(base, tuple) and base and base[0] == 'ord':
+            if isinstance(node.slice, ast.Slice):
+                if node.slice.step is not None or node.slice.lower is not None or node.slice.upper is not None:
+                    return ('ord', ('slice', base[1], ast.unparse(node.slice)))
+                return base
+            return ANY
+        return TOP
+
+    def sequence(self, node, vals, fr):
+        return Tup(vals, 'list' if isinstance(node, ast.List) else 'tuple')
+
+    def iter_elem(self, val, node, fr):
+        return ANY
+
+    def comprehension(self, node, fr):
+        if isinstance(node, ast.ListComp) and len(node.generators) == 1:
+            g = node.generators[0]
+            src = self.loop_order(g.iter, fr, node)
+            for cond in g.ifs:
+                k = self._membership(cond, fr, g.target)
+                if k is not None:
+                    src = ('filter', src, k)
+                else:
+                    return TOP
+            return ('ord', src) if src is not TOP else TOP
+        return TOP
+
+    def loop_order(self, it, fr, node):
+        """Order in which a for loop / comprehension visits its elements."""
+        if isinstance(it, ast.Call) and isinstance(it.func, ast.Name) and it.func.id == 'zip':
+            tags = [self.otag(self.value(a, fr)) for a in it.args]
+            for t in tags[1:]:
+                self.pair(node, fr, tags[0], t, 'zip of parallel sequences')
+            return tags[0]
+        if isinstance(it, ast.Call) and isinstance(it.func, ast.Name) and it.func.id == 'enumerate' and it.args:
+            return self.loop_order(it.args[0], fr, node)
+        if isinstance(it, ast.Call) and isinstance(it.func, ast.Attribute) and it.func.attr in ('items', 'keys') and not it.args:
+            v = self.value(it.func.value, fr)
+            if isinstance(v, tuple) and v and v[0] == 'container':
+                return ('xcols', v[1])
+            if isinstance(v, tuple) and v and v[0] == 'mat':
+                return v[2]
+            return self.otag(v)
+        v = self.value(it, fr)
+        if isinstance(v, tuple) and v and v[0] == 'container':
+            return ('xcols', v[1])  # iterating a frame / dict yields its keys in its own order
+        return self.otag(v)
+
+    def _membership(self, test, fr, target):
+        """`<loop var> in K` -> symbol of K."""
+        if isinstance(test, ast.Compare) and len(test.ops) == 1 and isinstance(test.ops[0], ast.In) \
+                and isinstance(test.left, ast.Name):
+            v = self.value(test.comparators[0], fr)
+            if isinstance(v, tuple) and v and v[0] == 'container':
+                return v[1]
+            if isinstance(v, tuple) and v and v[0] == 'ord' and isinstance(v[1], tuple) and v[1][0] in ('keys', 'xcols'):
+                return v[1][1]
+            if isinstance(v, tuple) and v and v[0] == 'mat' and isinstance(v[2], tuple) and v[2][0] in ('keys', 'xcols'):
+                return v[2][1]
+        return None
+
+    def name(self, node, fr):
+        acc = self._appended(node.id, fr)
+        if acc is not None:
+            return acc
+        return super().name(node, fr)
+
+    def _appended(self, nm, fr):
+        """List filled by one append per loop iteration inherits the loop's order (and its filter)."""
+        from .model import walk_no_nested
+        binds = fr.bindings.get(nm, [])
+        if not binds or not all(b.kind == 'assign' and isinstance(b.value, ast.List) and not b.value.elts for b in binds):
+            return None
+        apps = [n for n in walk_no_nested(fr.fn.node) if isinstance(n, ast.Call) and isinstance(n.func, ast.Attribute)
+                and n.func.attr == 'append' and isinstance(n.func.value, ast.Name) and n.func.value.id == nm]
+        if len(apps) != 1:
+            return TOP if apps else None
+        stmt = apps[0]._parent
+        chain = []
+        p = stmt._parent
+        child = stmt
+        loop = None
+        while p is not None and p is not fr.fn.node:
+            if isinstance(p, ast.For):
+                loop = p
+                break
+            if isinstance(p, ast.If) and child in p.body and not p.orelse:
+                chain.append(p.test)
+            elif isinstance(p, ast.If):
+                return TOP
+            child = p
+            p = p._parent
+        if loop is None:
+            return TOP
+        tag = self.loop_order(loop.iter, fr, loop)
+        for t in chain:
+            k = self._membership(t, fr, loop.target)
+            if k is None:
+                return TOP
+            tag = ('filter', tag, k)
+        return ('ord', tag) if tag is not TOP else TOP
+
+    # ------------------------------------------------------------------- calls
+    def external_call(self, name, node, fr):
+        args = node.args
+        if name is None:
+            return TOP
+        if name == 'pandas.Series':
+            data = kwarg(node, 'data', 0)
+            idx = kwarg(node, 'index', 1)
+            v = self.value(data, fr) if data is not None else TOP
+            if idx is None:
+                if isinstance(v, tuple) and v and v[0] == 'container':
+                    return v  # Series(dict) keeps the dict's key order and identity
+                return v
+            t_idx = self.otag(self.value(idx, fr))
+            self.pair(node, fr, self.otag(v), t_idx, 'pd.Series(values, index=labels)')
+            return ('ord', t_idx)
+        if name == 'pandas.DataFrame':
+            data = kwarg(node, 'data', 0)
+            v = self.value(data, fr) if data is not None else TOP
+            idx, cols = kwarg(node, 'index', 1), kwarg(node, 'columns', 2)
+            rt = ct = None
+            if isinstance(v, Tup) and len(v.elems) == 1:
+                e = v.elems[0]
+                # [row]: a one-row table; an unlabelled array-like row is positional
+                v = ('mat', ROWS, ANY if (isinstance(e, tuple) and e and e[0] == 'container') else self.otag(e))
+            if isinstance(v, tuple) and v and v[0] == 'mat':
+                rt, ct = v[1], v[2]
+            elif isinstance(v, tuple) and v and v[0] == 'container':
+                # an array-like parameter: positional columns (documented: training order)
+                rt, ct = ROWS, ANY
+                if cols is None and idx is None:
+                    return v
+            elif isinstance(v, tuple) and v and v[0] == 'dict':
+                return ('mat', ROWS, v[1])
+            if cols is not None:
+                tcols = self.otag(self.value(cols, fr))
+                if ct is not None:
+                    self.pair(node, fr, ct, tcols, 'pd.DataFrame(data, columns=labels)')
+                else:
+                    self.undecided.append((node, fr.fn, 'DataFrame data order not derivable'))
+                ct = tcols
+            if idx is not None:
+                tidx = self.otag(self.value(idx, fr))
+                if rt is not None:
+                    self.pair(node, fr, rt, tidx, 'pd.DataFrame(data, index=labels)')
+                rt = tidx
+            if rt is None and ct is None:
+                return TOP
+            return ('mat', rt if rt is not None else ROWS, ct if ct is not None else TOP)
+        if name in ('numpy.column_stack',) and args:
+            v = self.value(args[0], fr)
+            if isinstance(v, Tup):
+                return ('mat', ROWS, ANY)
+            return ('mat', ROWS, self.otag(v))
+        if name in ('scipy.stats.norm.ppf', 'scipy.stats.norm.cdf', 'numpy.nan_to_num', 'numpy.array', 'numpy.asarray',
+                    'scipy.special.ndtr', 'numpy.log', 'numpy.exp', 'numpy.abs') and args:
+            return self.value(args[0], fr)
+        if name == 'numpy.linalg.inv' and args:
+            v = self.value(args[0], fr)
+            return ('mat', v[2], v[1]) if isinstance(v, tuple) and v and v[0] == 'mat' else TOP
+        if name == 'numpy.linalg.solve' and len(args) == 2:
+            a, b = self.value(args[0], fr), self.value(args[1], fr)
+            if isinstance(a, tuple) and a and a[0] == 'mat':
+                if isinstance(b, tuple) and b and b[0] == 'mat':
+                    self.pair(node, fr, a[1], b[1], 'solve(A, B) (rows)')
+                    return ('mat', a[2], b[2])
+                if isinstance(b, tuple) and b and b[0] == 'ord':
+                    self.pair(node, fr, a[1], b[1], 'solve(A, b)')
+                    return ('ord', a[2])
+            return TOP
+        if name in ('numpy.zeros', 'numpy.ones', 'numpy.identity', 'numpy.eye', 'len', 'numpy.linalg.cond', 'numpy.full'):
+            return ANY
+        if name == 'numpy.random.multivariate_normal':
+            mean, cov = kwarg(node, 'mean', 0), kwarg(node, 'cov', 1)
+            m = self.value(mean, fr) if mean is not None else TOP
+            c = self.value(cov, fr) if cov is not None else TOP
+            if isinstance(c, tuple) and c and c[0] == 'mat':
+                self.pair(node, fr, self.otag(m), c[1], 'multivariate_normal(mean, cov)')
+                return ('mat', ROWS, c[2])
+            return TOP
+        if name.startswith('scipy.stats.multivariate_normal.'):
+            cov = kwarg(node, 'cov', 2)
+            x = self.value(args[0], fr) if args else TOP
+            c = self.value(cov, fr) if cov is not None else TOP
+            if isinstance(x, tuple) and x and x[0] == 'mat' and isinstance(c, tuple) and c and c[0] == 'mat':
+                self.pair(node, fr, x[2], c[1], f'{name.split(".")[-1]}(points, cov)')
+            elif cov is not None:
+                self.undecided.append((node, fr.fn, 'order of the evaluation points / covariance not derivable'))
+            return ANY
+        if name == 'isinstance':
+            return ANY
+        if name in ('sorted', 'reversed') and args:
+            t = self.otag(self.value(args[0], fr))
+            return ('ord', (name, t)) if t is not TOP else TOP
+        if name in ('list', 'tuple', 'pandas.Index') and args:
+            return self.value(args[0], fr)
+        return TOP
+
+    def method_call(self, meth, node, recv, fr):
+        if meth in ('sort_values', 'sort_index', 'sort') and isinstance(recv, tuple) and recv and recv[0] == 'ord':
+            return ('ord', ('sorted', recv[1]))
+        if meth in ('to_numpy', 'copy', 'astype', 'clip', 'tolist'):
+            return recv
+        if meth == 'corr' and isinstance(recv, tuple) and recv and recv[0] == 'mat':
+            return ('mat', recv[2], recv[2])
+        if meth == 'difference' and isinstance(recv, tuple) and recv and recv[0] == 'ord':
+            return ('ord', ('diff', id(node)))
+        if meth == 'to_frame':
+            return recv
+        if meth in ('cdf', 'percent_point', 'cumulative_distribution', 'ppf'):
+            return ANY
+        return None
+
+    def dict_literal(self, node, fr):
+        return TOP
+
+
+def fmt_tag(t):
+    if t is TOP or t is None:
+        return '?'
+    if t == ANY:
+        return 'any'
+    if t == ROWS:
+        return 'rows'
+    if isinstance(t, tuple):
+        if t[0] == 'cols':
+            return 'ord(self.columns)'
+        if t[0] == 'keys':
+            return f'ord(keys of {t[1]})'
+        if t[0] == 'xcols':
+            return f'ord(columns of {t[1]})'
+        if t[0] == 'filter':
+            return f'{fmt_tag(t[1])} | in {t[2]}'
+        if t[0] == 'diff':
+            return 'sorted(difference)'
+        if t[0] in ('sorted', 'reversed'):
+            return f'{t[0]}({fmt_tag(t[1])})'
+        if t[0] == 'slice':
+            return f'{fmt_tag(t[1])}[{t[2]}]'
+    return str(t)
